@@ -30,7 +30,7 @@ func c18DumpRRC(r *ReturnRoutabilityCheck) v.Dump {
 // TestVerifC18Protocol: change_cipher_spec (4), application_data (5), ACK (6), RRC (7).
 func TestVerifC18Protocol(t *testing.T) {
 	ccs := &v.Codec{
-		Name: "ccs", ID: 4, Small: true,
+		Name: "ccs", ID: 4, Small: true, Tiny: true,
 		Decode: func(in []byte) (*v.Decoded, error) {
 			var c ChangeCipherSpec
 			if err := c.Unmarshal(in); err != nil {
@@ -95,7 +95,7 @@ func TestVerifC18Protocol(t *testing.T) {
 		Hint: []byte{0},
 	}
 	rrc := &v.Codec{
-		Name: "rrc", ID: 7, Small: true,
+		Name: "rrc", ID: 7, Small: true, Tiny: true,
 		Decode: func(in []byte) (*v.Decoded, error) {
 			var r ReturnRoutabilityCheck
 			if err := r.Unmarshal(in); err != nil {
